@@ -4,6 +4,14 @@
 `Bytes` is `List UInt8`; big-endian 32-bit fields; an `Outcome` type in which a Go
 run-time panic (slice/index out of range) is an explicit result, never a default.
 -/
+open Lean in
+/-- `b!"text"`: the UTF-8 bytes of a string literal as an explicit list literal (so that `decide`
+    and `simp` can compute with keywords and operators) -/
+macro:max "b!" s:str : term => do
+  let bytes := s.getString.toUTF8.toList
+  let elems ← bytes.mapM fun b => `(($(Syntax.mkNumLit (toString b.toNat)) : UInt8))
+  `(([$(elems.toArray),*] : List UInt8))
+
 namespace Syzgy
 
 abbrev Bytes := List UInt8
